@@ -286,6 +286,25 @@ func suiteNumeric(rn *runner, r *rng, tier string) {
 	two64 := new(big.Float).SetMantExp(big.NewFloat(1), 64)
 	for i := 0; i < n; i++ {
 		cr := r.fork()
+		if cr.chance(1, 12) {
+			// a float entry stored by SetFloat: any bit pattern, incl. NaN and the infinities (model vs implementation)
+			bits := cr.u64()
+			switch cr.intn(6) {
+			case 0:
+				bits = math.Float64bits(math.NaN())
+			case 1:
+				bits = math.Float64bits(math.Inf(1 - 2*cr.intn(2)))
+			case 2:
+				bits = 0x7ff0000000000001 + uint64(cr.intn(1000)) // signalling NaNs
+			}
+			tc := &testCase{note: "numeric-stored", ops: []string{"parse p 0 1 " + hx([]byte("[1.5]")), "iter i p", "advinto i", "advinto i", "advinto i",
+				"setfloat i " + h64(bits), "int i", "uint i", "float i", "iter a0 p", "advinto a0", "advinto a0", "array a a0", "asint a", "asuint a", "asfloat a"}}
+			rn.add(tc)
+			cls := fmt.Sprintf("stored/int=%v/uint=%v", tc.impl[6] != "err", tc.impl[7] != "err")
+			rn.rep.Distribution[cls]++
+			rn.seen[cls] = true
+			continue
+		}
 		lit := cr.number()
 		if cr.chance(1, 3) { // floats around the integer boundaries
 			base := []float64{9223372036854775807, 9223372036854775808, 18446744073709551615, 18446744073709551616, -9223372036854775808, 4503599627370496, 0.5, -0.5, 1e19, 1.5e19}[cr.intn(10)]
